@@ -1,5 +1,6 @@
 """C05 — address pools neither leak nor miscount."""
 import verif as V
+import dhcp6int
 import locks
 import poolrace
 
@@ -31,6 +32,10 @@ COMPS = [
     # after every frame; the monitor is proved silent on the model (Spec.C16PppoeWhole.monitor_silent_on_model)
     V.Component("pppoesrv", monitors=["residue", "conservation", "obs-roundtrip", "held-free", "pool-entry"]),
 ]
+# the DHCPv6 server in integrated-allocator mode (lib/dhcp6int.py)
+COMPS += dhcp6int.comps(["leak"])
+SPEC = SPEC + dhcp6int.SPEC
+
 LEVEL = ("Counting, exhaustion-only-when-full and release-returns are theorems over the Lean pool models for ALL "
          "operation histories and geometries; the models are tied to the real Go code by differential execution, and "
          "the abstract pool monitor judges the real code's Stats()/exhaustion answers against the holdings it handed out.")
@@ -48,6 +53,9 @@ ASSUME = ASSUME + [locks.ASSUME]
 # concurrent callers of pool.LocalPool: burst-heavy sequences on harnesses built with -race (lib/poolrace.py)
 RACE = poolrace.make(PROP, MON + ["leak"])
 
+
+ASSUME = ASSUME + dhcp6int.ASSUME
+LEVEL = LEVEL + " " + dhcp6int.LEVEL
 
 def run(tier, seed):
     return V.standard_check(PROP, SPEC, COMPS, LEVEL, ASSUME, tier, seed, pre=locks.with_locks(), post=RACE)
